@@ -19,7 +19,7 @@
 
 use futures::future::FusedFuture;
 use futures::stream::{FusedStream, FuturesUnordered, Stream};
-use futures::{pin_mut, select};
+use futures::{pin_mut, select_biased};
 use nix;
 use nix::errno::Errno;
 use nix::sys::signal::{self, SigHandler, Signal};
@@ -954,11 +954,15 @@ where
 
     let mut next_bg = bg_stream.next();
     loop {
-        select! {
-            x = fg_future => return x,
+        // The stream is polled first: when a background job has finished in
+        // the same round in which the foreground future becomes ready, the
+        // job's result is recorded (and its lock released) before the caller
+        // continues -- possibly to block on a lock held by another process.
+        select_biased! {
             _ = next_bg => {
                 next_bg = bg_stream.next();
             }
+            x = fg_future => return x,
         }
     }
 }
